@@ -76,3 +76,8 @@ func (wg *WeightedAuthorizationModelGraph) VerifAssignWeightsInOrder(order []str
 
 	return nil
 }
+
+// VerifFlags exposes the two fields of CycleInformation.
+func (c CycleInformation) VerifFlags() (bool, bool) {
+	return c.hasCyclesAtCompileTime, c.canHaveCyclesAtRuntime
+}
